@@ -131,7 +131,12 @@ func runC17(c *ShardCtx) {
 			if c.Expired("cut at body size " + itoa(size)) {
 				return
 			}
-			runGrammar(c, wrap(body), fam)
+			g := wrap(body)
+			f := *fam
+			if g.Has(peg.KClass) {
+				f.gens = gens4 // classes have a second matching path under -optimize-basic-latin
+			}
+			runGrammar(c, g, &f)
 		}
 	}
 }
